@@ -156,6 +156,35 @@ fn pair_case(rt: &Rt, spec: &PairSpec, x: &DV, st: &mut Stats, counting: bool) -
     Ok(())
 }
 
+/// C11 on derived definitions: the schemas of two definitions whose memory representations
+/// differ by construction must not be layout compatible (in either direction).
+fn layout_pair_case(rt: &Rt, spec: &PairSpec, st: &mut Stats) -> Result<(), GFail> {
+    let b = &rt.b;
+    let (sa, sb) = (&b.ops[spec.a], &b.ops[spec.b]);
+    for v in b.uni.versions() {
+        let (Out::Ok(a), Out::Ok(m)) = (sa.schema(v), sb.schema(v)) else { continue };
+        st.evaluations += 1;
+        let self_ok = a.layout_compatible(&a);
+        st.class(if self_ok { "derived.self_compatible" } else { "derived.layout_unknown" });
+        for (x, y, dir) in [(&a, &m, "base_vs_twin"), (&m, &a, "twin_vs_base")] {
+            if x.layout_compatible(y) {
+                return Err(GFail {
+                    check: "different_memory_representation_reported_compatible".into(),
+                    detail: format!("{} ({}): schemas of {} and {} are layout_compatible at version {}", spec.rel, dir, sa.type_name(), sb.type_name(), v),
+                    extra: json!({"relation": spec.rel, "version": v}),
+                });
+            }
+        }
+        if self_ok {
+            st.nontrivial.insert(vcore::rng::fnv64(format!("{}/{}/{}", spec.a, spec.b, v).as_bytes()));
+            if st.samples.len() < 3 {
+                st.sample(json!({"relation": spec.rel, "base": sa.type_name(), "twin": sb.type_name(), "version": v, "layout_compatible": false, "definitions": def_source(b, &b.roots[spec.a].ty).chars().take(400).collect::<String>()}));
+            }
+        }
+    }
+    Ok(())
+}
+
 fn short(n: &vcore::pairs::WNorm) -> String {
     format!("{:?}", n).chars().take(160).collect()
 }
@@ -336,6 +365,27 @@ fn main() {
                 std::process::exit(1)
             }
         }
+    }
+    if args.prop == "C11" {
+        // derived-definition part of C11 (runs in-process: a few hundred schema comparisons)
+        let mut st = Stats::default();
+        for (pi, spec) in rt.pb.pairs.iter().enumerate() {
+            // pairs that pass the wire-compatibility gate (so a connection would be created) but
+            // whose memory representations differ by construction
+            if !spec.rel.starts_with("layout.") {
+                continue;
+            }
+            if let Err(f) = layout_pair_case(&rt, spec, &mut st) {
+                let mut signature = BTreeMap::new();
+                signature.insert("check".to_string(), f.check.clone());
+                signature.insert("relation".to_string(), spec.rel.clone());
+                let replay = json!({"kind": "layout_pair", "pair_index": pi, "spec": spec, "detail": f.detail, "extra": f.extra,
+                    "definitions_base": def_source(&rt.b, &rt.b.roots[spec.a].ty), "definitions_twin": def_source(&rt.b, &rt.b.roots[spec.b].ty)});
+                st.violations.push(Violation { signature, replay });
+            }
+        }
+        println!("STATS {}", serde_json::to_string(&st).unwrap());
+        return;
     }
     if args.worker.is_some() {
         let mut shard = Shard::new(&args);
